@@ -196,9 +196,13 @@ type rec struct {
 	sms        []msg
 	code       string
 	cref, href string
+	raw        func() tr.E // events of another shape (runs)
 }
 
 func (x *rec) render() tr.E {
+	if x.raw != nil {
+		return x.raw()
+	}
 	if x.op == "send" {
 		sms := make([]tr.E, 0, len(x.sms))
 		stable := x.hash == x.hashAt // what was returned / handed over still reads the same
@@ -317,6 +321,11 @@ func (in *inst) sendVia(p pair, gw string) {
 	var err error
 	out, pv := guard(func() { hash, err = in.logic.SendSMSCode(p.area, p.phone) })
 	in.sms.fail = ""
+	in.logSend(p, hash, err, out, pv, gw)
+}
+
+// logSend classifies one finished SendSMSCode call, logs it and remembers what it put in force.
+func (in *inst) logSend(p pair, hash string, err error, out string, pv interface{}, gw string) {
 	r, class := "ok", "none"
 	_, gwp := pv.(gwPanic)
 	switch {
@@ -376,6 +385,141 @@ func (in *inst) verify(p pair, code, hash, cref, href string) {
 		r, class = verifyClass(err)
 	}
 	in.log(&rec{op: "verify", p: p, r: r, class: class, code: code, hash: hash, cref: cref, href: href})
+}
+
+// ---------------------------------------------------------------- runs of identical calls
+// A run is `times` identical calls logged as ONE event with the replies run-length encoded (a
+// history of 65537 calls stays one line).  The replies are what the calls returned; a panic or a
+// hang ends the run and is logged as a call of its own.
+type seg struct {
+	r string
+	c int
+}
+
+func rle(segs []seg) []tr.E {
+	out := make([]tr.E, 0, len(segs))
+	for _, x := range segs {
+		out = append(out, tr.E{"r": x.r, "c": x.c})
+	}
+	return out
+}
+
+const maxSegs = 64
+
+// batch runs fn up to n times in one watched goroutine; fn returns the reply class of one call
+// ("" = stop before this call counts).  Returns the encoded replies, the number of calls made,
+// and "panic: .." / "hang" when the last call (not counted) ended that way.
+func batch(n int, fn func() string) (segs []seg, made int, bad string) {
+	done := make(chan struct{})
+	var cur []seg
+	var m int
+	var b string
+	go func() {
+		defer close(done)
+		for i := 0; i < n; i++ {
+			var r string
+			func() {
+				defer func() {
+					if x := recover(); x != nil {
+						b = fmt.Sprintf("panic: %v", x)
+					}
+				}()
+				r = fn()
+			}()
+			if b != "" || r == "" {
+				return
+			}
+			if len(cur) > 0 && cur[len(cur)-1].r == r {
+				cur[len(cur)-1].c++
+			} else if len(cur) == maxSegs {
+				return // a new run event takes the rest
+			} else {
+				cur = append(cur, seg{r, 1})
+			}
+			m++
+		}
+	}()
+	t := time.NewTimer(watchdog)
+	defer t.Stop()
+	select {
+	case <-done:
+		return cur, m, b
+	case <-t.C:
+		hung = true
+		return nil, 0, "hang"
+	}
+}
+
+func (in *inst) verifyRun(p pair, code, hash, cref, href string, times int) {
+	for times > 0 && !in.dead {
+		segs, made, bad := batch(times, func() string {
+			err := in.logic.VerifySMSCode(p.area, p.phone, code, hash)
+			if err == nil {
+				return "ok"
+			}
+			r, _ := verifyClass(err)
+			return r
+		})
+		if made > 0 {
+			m, sg := made, segs
+			in.log(&rec{raw: func() tr.E {
+				return tr.E{"ev": "run", "times": m, "rle": rle(sg), "a": tr.E{"op": "verify", "p": pj(p),
+					"code": tr.Str(code), "hash": tr.Str(hash), "cref": cref, "href": href}}
+			}})
+		}
+		times -= made
+		if bad == "hang" {
+			in.dead = true
+			in.log(&rec{op: "verify", p: p, r: "hang", class: "no return within the watchdog time",
+				code: code, hash: hash, cref: cref, href: href})
+			return
+		}
+		if bad != "" {
+			in.log(&rec{op: "verify", p: p, r: "panic", class: bad, code: code, hash: hash, cref: cref, href: href})
+			times--
+		}
+		if made == 0 && bad == "" {
+			return
+		}
+	}
+}
+
+// sendRun repeats a send as long as it is plainly refused (error, nothing reached the gateway); a
+// call that ends otherwise ends the run and is logged after it as the ordinary call it was.
+func (in *inst) sendRun(p pair, times int) {
+	if in.dead {
+		return
+	}
+	type res struct {
+		hash string
+		err  error
+	}
+	var extra *res
+	segs, made, bad := batch(times, func() string {
+		in.sms.got, in.sms.fail, in.sms.failed = nil, "", false
+		hash, err := in.logic.SendSMSCode(p.area, p.phone)
+		if err == nil || len(in.sms.got) > 0 || hash != "" {
+			extra = &res{hash, err}
+			return ""
+		}
+		return "refused"
+	})
+	if made > 0 {
+		m, sg := made, segs
+		in.log(&rec{raw: func() tr.E {
+			return tr.E{"ev": "run", "times": m, "rle": rle(sg), "a": tr.E{"op": "send", "p": pj(p),
+				"nsms": 0, "stable": true}}
+		}})
+	}
+	switch {
+	case bad == "hang":
+		in.dead = true
+		in.log(&rec{op: "send", p: p, r: "hang", class: "no return within the watchdog time"})
+	case bad != "":
+		in.log(&rec{op: "send", p: p, r: "panic", class: bad, sms: in.sms.got})
+	case extra != nil:
+		in.logSend(p, extra.hash, extra.err, "", nil, "")
+	}
 }
 
 // other pair with a code in force (first in order of first send)
@@ -686,6 +830,70 @@ func runGuess(w *tr.W, rng *rand.Rand) {
 	}
 }
 
+// ---------------------------------------------------------------- long histories around integer widths
+// Runs of W-1 / W / W+1 identical calls (W = 256, 65536) against one sent code, with the limit both
+// small and around W: wrong code, right code after the lock, right code before it, refused sends.
+func around(rng *rand.Rand, big bool) int {
+	w := 256
+	if big {
+		w = 65536
+	}
+	return w - 1 + rng.Intn(3)
+}
+
+func runLong(w *tr.W, rng *rand.Rand, allowBig bool) {
+	big := allowBig && rng.Intn(3) == 0
+	g := regime{Mock: rng.Intn(2) == 0, Len: []int{1, 4, 6}[rng.Intn(3)], TTL: rng.Intn(5) != 0,
+		Gap: rng.Intn(2) == 0, Win: rng.Intn(2) == 0, MaxCount: rng.Intn(3), MaxVerify: rng.Intn(6)}
+	switch rng.Intn(4) {
+	case 0:
+		g.MaxVerify = around(rng, big) - 1 + rng.Intn(3) // W-2 .. W+2
+	case 1:
+		g.MaxVerify = math.MaxInt
+	}
+	g.cache = 2
+	in := newInst(w, rng, g, "long", rng.Intn(2) == 0)
+	defer in.flush()
+	p, q := pair{"86", "13800138000"}, pair{"1", "23"}
+	in.send(p)
+	in.send(q)
+	for round := 0; round < 2+rng.Intn(3) && !in.dead; round++ {
+		switch rng.Intn(5) {
+		case 0: // wrong code all the way
+			in.verifyRun(p, in.refCode(p, "bad"), in.refHash(p, "cur"), "bad", "cur", around(rng, big))
+		case 1: // right code all the way
+			in.verifyRun(p, in.refCode(p, "cur"), in.refHash(p, "cur"), "cur", "cur", around(rng, big))
+		case 2: // right code, wrong hash
+			in.verifyRun(p, in.refCode(p, "cur"), in.refHash(p, "bad"), "cur", "bad", around(rng, big))
+		case 3: // sends that are refused (if they are)
+			in.sendRun(p, around(rng, big))
+		case 4: // a pair that never got a code
+			r := pair{"49", "15112345678"}
+			in.verifyRun(r, in.refCode(p, "cur"), in.refHash(p, "cur"), "oth", "oth", around(rng, false))
+		}
+		// probes after the run: the right code for p, and the bystander q is untouched
+		in.verify(p, in.refCode(p, "cur"), in.refHash(p, "cur"), "cur", "cur")
+		in.verify(q, in.refCode(q, "cur"), in.refHash(q, "cur"), "cur", "cur")
+		if rng.Intn(4) == 0 {
+			in.send(p) // a new send resets the attempts (where it is not refused)
+		}
+	}
+}
+
+// bursts: MaxCount around 256 (thorough: around 65536) in the one-window regime, MaxCount+3 sends,
+// every one logged (each puts a new code in force).
+func runBurst(w *tr.W, rng *rand.Rand, big bool) {
+	g := regime{Mock: rng.Intn(2) == 0, Len: 4, TTL: true, Gap: true, Win: true,
+		MaxCount: around(rng, big) - 1 + rng.Intn(3), MaxVerify: 2}
+	g.cache = 1
+	in := newInst(w, rng, g, "burst", false)
+	p := pair{"86", "13800138000"}
+	for i := 0; i < g.MaxCount+4 && !in.dead; i++ {
+		in.send(p)
+	}
+	in.verify(p, in.refCode(p, "cur"), in.refHash(p, "cur"), "cur", "cur")
+}
+
 // twins: one caller, one Config value and one gateway shared by two logics (what a service with two
 // endpoints does).  Each logic must behave as if it were alone: its calls are recorded into a trace
 // of its own, the calls of the two are interleaved.
@@ -740,6 +948,98 @@ func runCodeSample(w *tr.W, rng *rand.Rand, codeLen, chars int) {
 	w.Emit(tr.E{"ev": "cover", "what": "codes", "alpha": tr.Str(digits), "chars": total})
 }
 
+// per-position histogram: for each position of the output the set of characters seen
+type posHist struct {
+	sets []map[byte]bool
+	bad  int
+	n    int
+}
+
+func newPosHist(length int) *posHist {
+	h := &posHist{sets: make([]map[byte]bool, length)}
+	for i := range h.sets {
+		h.sets[i] = map[byte]bool{}
+	}
+	return h
+}
+
+func (h *posHist) add(out, alpha string) {
+	h.n++
+	if len(out) != len(h.sets) {
+		h.bad++
+		return
+	}
+	for i := 0; i < len(out); i++ {
+		if !strings.Contains(alpha, out[i:i+1]) {
+			h.bad++
+			return
+		}
+	}
+	for i := 0; i < len(out); i++ {
+		h.sets[i][out[i]] = true
+	}
+}
+
+func (h *posHist) event(what, alpha string) tr.E {
+	pos := make([][]int, len(h.sets))
+	for i, m := range h.sets {
+		pos[i] = make([]int, 0, len(m))
+		for c := range m {
+			pos[i] = append(pos[i], int(c))
+		}
+		sort.Ints(pos[i])
+	}
+	return tr.E{"ev": "alpha", "what": what, "alpha": tr.Str(alpha), "len": len(h.sets), "n": h.n,
+		"pos": pos, "bad": h.bad}
+}
+
+// codes handed to the gateway, judged per position: 45*|alphabet| successful sends of one code
+// length; only the histogram is logged (a send that is not a plain success is logged as a call).
+func runCodePos(w *tr.W, rng *rand.Rand, codeLen int) {
+	g := regime{Mock: false, Len: codeLen, TTL: true, Gap: true, Win: false, MaxCount: 0, MaxVerify: 2}
+	in := newInst(w, rng, g, "positions", false)
+	ps := []pair{{"86", "13800138000"}, {"1", "5550100"}}
+	h := newPosHist(codeLen)
+	for i := 0; i < 45*len(digits) && !in.dead; i++ {
+		p := ps[i%len(ps)]
+		in.sms.got, in.sms.fail, in.sms.failed = nil, "", false
+		var hash string
+		var err error
+		out, pv := guard(func() { hash, err = in.logic.SendSMSCode(p.area, p.phone) })
+		if out != "" || err != nil || len(in.sms.got) != 1 {
+			in.logSend(p, hash, err, out, pv, "")
+			break
+		}
+		h.add(in.sms.got[0].code, digits)
+	}
+	w.Emit(h.event("codes", digits))
+}
+
+// the generators themselves, per position
+func runNoncePos(w *tr.W, fn, alpha string, length int) {
+	w.Emit(tr.E{"ev": "reset", "mock": false, "len": 0, "ttl": true, "gap": true, "win": false,
+		"maxCount": 0, "maxVerify": 0, "src": "positions:" + fn, "durations": tr.E{"none": true},
+		"late": false})
+	h := newPosHist(length)
+	for i := 0; i < 45*len(alpha); i++ {
+		var out string
+		pan, _ := guard(func() {
+			if fn == "sec" {
+				out = random.SecGenNonceStr(alpha, length)
+			} else {
+				out = random.GenNonceStr(alpha, length)
+			}
+		})
+		if pan != "" {
+			w.Emit(tr.E{"ev": "nonce", "fn": fn, "alpha": tr.Str(alpha), "n": length, "out": []int{},
+				"panic": true, "msg": pan})
+			return
+		}
+		h.add(out, alpha)
+	}
+	w.Emit(h.event("nonce", alpha))
+}
+
 // direct samples of idgen/random's generators over several alphabets
 func runNonceSample(w *tr.W, rng *rand.Rand, fn, alpha string, n int) {
 	w.Emit(tr.E{"ev": "reset", "mock": false, "len": 0, "ttl": true, "gap": true, "win": false,
@@ -780,6 +1080,9 @@ func main() {
 	nrand := flag.Int("rand", 300, "random histories")
 	nguess := flag.Int("guess", 100, "guessing histories")
 	ntwin := flag.Int("twin", 60, "twin histories (two logics on one Config and gateway)")
+	nlong := flag.Int("long", 40, "long histories (runs around 256 / 65536 identical calls)")
+	nburst := flag.Int("burst", 2, "send bursts with MaxCount around 256")
+	full := flag.Bool("full", false, "thorough: every code length 1..40, a send burst around 65536")
 	maxops := flag.Int("maxops", 60, "max ops per random history")
 	nsample := flag.Int("nsample", 1, "code samples per code length")
 	chars := flag.Int("chars", 12000, "characters per code sample")
@@ -807,6 +1110,15 @@ func main() {
 	for i := 0; i < *ntwin && !hung; i++ {
 		runTwin(w, rng, 10+rng.Intn(*maxops))
 	}
+	for i := 0; i < *nlong && !hung; i++ {
+		runLong(w, rng, true)
+	}
+	for i := 0; i < *nburst && !hung; i++ {
+		runBurst(w, rng, false)
+	}
+	if *full && !hung {
+		runBurst(w, rng, true)
+	}
 	w.Close()
 
 	sw := tr.Create(*sample)
@@ -823,6 +1135,28 @@ func main() {
 			"abcdefghijklmnopqrstuvwxyzABCDEFGHIJKLMNOPQRSTUVWXYZ0123456789"} {
 			if !hung {
 				runNonceSample(sw, rng, fn, alpha, 96+rng.Intn(64))
+			}
+		}
+	}
+	lens := []int{1, 2, 6, 9, 10, 11, 12, 20, 21, 33, 40}
+	if *full {
+		lens = lens[:0]
+		for l := 1; l <= 40; l++ {
+			lens = append(lens, l)
+		}
+	}
+	for _, l := range lens {
+		if !hung {
+			runCodePos(sw, rng, l)
+		}
+	}
+	for _, fn := range []string{"sec", "plain"} {
+		for _, alpha := range []string{digits, "ab", "ACGT", "0123456789abcdef",
+			"abcdefghijklmnopqrstuvwxyzABCDEFGHIJKLMNOPQRSTUVWXYZ0123456789"} {
+			for _, l := range []int{1, 7, 33, 70} {
+				if !hung && (*full || fn == "sec" || l == 70) {
+					runNoncePos(sw, fn, alpha, l)
+				}
 			}
 		}
 	}
